@@ -12,6 +12,9 @@ package content
 // source to refill from.  Every buffer primitive keeps it; the token readers built on them
 // are then panic-free for arbitrary input bytes.
 //@ pred cs(s *scanner) = s.src != nil && 0 <= s.pos && s.pos <= s.used && s.used <= len(s.buf) && len(s.buf) >= 16
+// kept: no refill happened (the buffered bytes are where they were); holds whenever enough
+// bytes were buffered already
+//@ pred kept(s *scanner) = s.used == old(s.used) && forall i in 0..len(s.buf) :: s.buf[i] == old(s.buf[i])
 
 //@ func (*scanner).refill (s) (err)
 //@   tags C05 C15
@@ -26,22 +29,27 @@ package content
 //@   assigns s.pos, s.used, s.err, elems(s.buf), s.src.rdpos
 //@   ensures cs(s) && s.buf == old(s.buf) && s.src == old(s.src)
 //@   ensures err == nil ==> s.pos < s.used && b == s.buf[s.pos]
+//@   ensures old(s.pos < s.used) ==> err == nil && s.pos == old(s.pos) && kept(s)
 //@   loop 1: invariant cs(s) && s.buf == old(s.buf) && s.src == old(s.src)
+//@   loop 1: invariant old(s.pos < s.used) ==> s.pos == old(s.pos) && kept(s)
 
 //@ func (*scanner).PeekN (s, n) (view)
 //@   tags C05 C15
 //@   requires cs(s) && 0 <= n && n <= 16
 //@   assigns s.pos, s.used, s.err, elems(s.buf), s.src.rdpos
 //@   ensures cs(s) && s.buf == old(s.buf) && s.src == old(s.src)
-//@   ensures 0 <= len(view) && len(view) <= n && len(view) <= s.used - s.pos
+//@   ensures 0 <= len(view) && len(view) == min(n, s.used - s.pos)
+//@   ensures old(s.pos + n <= s.used) ==> s.pos == old(s.pos) && kept(s)
 //@   ensures refof(view) == refof(s.buf) && offof(view) == offof(s.buf) + s.pos
 //@   loop 1: invariant cs(s) && s.buf == old(s.buf) && s.src == old(s.src)
+//@   loop 1: invariant old(s.pos + n <= s.used) ==> s.pos == old(s.pos) && kept(s)
 
 //@ func (*scanner).ReadByte (s) (b, err)
 //@   tags C05 C15
 //@   requires cs(s)
 //@   assigns s.pos, s.used, s.err, elems(s.buf), s.src.rdpos, s.Line, s.Col, s.crSeen
 //@   ensures cs(s) && s.buf == old(s.buf) && s.src == old(s.src)
+//@   ensures old(s.pos < s.used) ==> err == nil && s.pos == old(s.pos) + 1 && kept(s)
 
 //@ func (*scanner).SkipByte (s) ()
 //@   tags C05 C15
@@ -54,13 +62,17 @@ package content
 //@   requires cs(s)
 //@   assigns s.pos, s.used, s.err, elems(s.buf), s.src.rdpos, s.Line, s.Col, s.crSeen
 //@   ensures cs(s) && s.buf == old(s.buf) && s.src == old(s.src)
+//@   ensures old(0 <= n && n <= s.used - s.pos) ==> s.pos == old(s.pos) + n && kept(s)
 //@   loop 1: invariant cs(s) && s.buf == old(s.buf) && s.src == old(s.src)
+//@   loop 1: invariant old(0 <= n && n <= s.used - s.pos) ==> s.pos == old(s.pos) + \done && kept(s)
 
 // ---- token readers: panic-free for arbitrary bytes ----
 //@ func hexDigit (c) (d)
 //@   tags C05 C15
 //@   pure
 //@   ensures d == 255 || d <= 15
+//@   ensures isHex(c) ==> d == hexVal(c)
+//@   ensures !isHex(c) ==> d == 255
 
 //@ func (*scanner).LookingAt (s, str) (ok)
 //@   tags C05 C15
@@ -101,11 +113,14 @@ package content
 //@   assigns s.pos, s.used, s.err, elems(s.buf), s.src.rdpos
 //@   ensures cs(s) && s.buf == old(s.buf) && s.src == old(s.src)
 
+// a '#' followed by any two hexadecimal digits is an escape (7.3.5), whatever its value
 //@ func (*scanner).tryHex (s) (b, ok)
 //@   tags C05 C15
 //@   requires cs(s)
 //@   assigns s.pos, s.used, s.err, elems(s.buf), s.src.rdpos, s.Line, s.Col, s.crSeen
 //@   ensures cs(s) && s.buf == old(s.buf) && s.src == old(s.src)
+//@   ensures !ok ==> s.used - s.pos < 3 || !isHex(s.buf[s.pos + 1]) || !isHex(s.buf[s.pos + 2])
+//@   ensures ok ==> s.pos >= 3 && isHex(s.buf[s.pos - 2]) && isHex(s.buf[s.pos - 1]) && b == 16 * hexVal(s.buf[s.pos - 2]) + hexVal(s.buf[s.pos - 1])
 
 //@ func (*scanner).ReadComment (s) (c, err)
 //@   tags C05 C15
